@@ -30,7 +30,7 @@ RULE = ("histories = 1-3 coexisting models (more via new_model) + 4-40 ops out o
         "deepcopy / pickle round trip of a model (directly or through one of its agents / its AgentSet) whose copy must mirror every "
         "view with its own agent objects, go on as a model of its own - continuing its own unique_id sequence - and leave the "
         "original alone, "
-        "n = 30; every view of every model is observed after every op and the oracle is evaluated after every atomic action "
+        "n = 30; a SCALE stream in every run (registries of 1025 / 2049 / 4097 agents of three classes over two models, oracle-only: bulk create_agents, interleaved single removes, remove_all_agents, agents.do / shuffle_do(\"remove\"), re-creation; 129 / 257 agents also through the model; 21 sizes from 8 to 8193 in the thorough tier and whenever the source moved); every view of every model is observed after every op and the oracle is evaluated after every atomic action "
         "(not inside a running remove()/remove_all_agents()); non-trivial = at least 3 ops, one creation and one removal or "
         "activation; distinct = by SHA1 of the history; enumerator (thorough / on a break): all sequences of length <= 3 (4) over 21 ops")
 TRUSTED_BASE = [
